@@ -210,6 +210,9 @@ def check(run):
     run.attempt(whosets, run, p, rt)
     run.attempt(flags, run, p)
     run.attempt(kindflag, run, p)
+    from .c04 import sameenc
+    run.attempt(sameenc, run, p, p.cls('FilesComparison'), 'C10-SAMEENC')
+    run.rules['C10-SAMEENC'] += ' (a reference just regenerated from the actual file must compare equal to it)'
     run.attempt(rw, run, p, E, rt)
     run.attempt(verbatim, run, p, rt)
     from .c04 import split
